@@ -34,6 +34,9 @@ def run(ctx):
         for lim in (1, 2):
             runs.append(("exh", "thread", lim, 3, 3))
             runs.append(("exh", "process", lim, 3, 3))
+    # large key alphabet with a limit well above 64 (hash-table growth / collisions)
+    runs.append(("rand", "thread", 100, 300, 2500 if q else 20000, 1))
+    runs.append(("rand", "process", 150, 300, 2500 if q else 20000, 1))
     n = 0
     for spec in runs:
         n += 1
@@ -48,7 +51,7 @@ def run(ctx):
             ctx.seen(ln[:80])
         if n <= 3:
             ctx.sample({"driver": list(spec), "first_events": [x.strip() for x in lines[:6]]})
-        rej = ctx.validate("Cache/CacheTrace.tla", "CacheTrace.cfg", t, dfs=True)
+        rej = ctx.validate("Cache/CacheTrace.tla", "CacheTrace_big.cfg" if spec[3] > 16 else "CacheTrace.cfg", t, dfs=True)
         for x in rej:
             ctx.violation("trace08:%s" % sig(x), "cache trace not a behaviour of Cache (C08 strict) at %s" % x["event"][:160], x["path"])
         os.remove(t)
